@@ -235,23 +235,24 @@ class ModelWorld(engine.World):
         self.kfls.append(layer)
       if isinstance(layer, tfl.layers.CategoricalCalibration):
         self.cat_layers[layer.name] = layer
-    self.kfl_state = {}
+    self.kfl_ref = []
     for k, layer in enumerate(self.kfls):
       # The initializer orders the kernel w.r.t. the initial sign of scale.
-      st = {"sign_seen": (np.sign(layer.scale.numpy()).astype(np.int8)
-                          if fresh else None)}
+      kr = common.KflRef(layer, fresh=fresh)
       if ref is not None and k < len(ref.get("kfl", [])):
-        ss = ref["kfl"][k]
-        st["sign_seen"] = None if ss is None else np.array(ss, dtype=np.int8)
-      self.kfl_state[k] = st
+        kr.restore(ref["kfl"][k])
+      self.kfl_ref.append(kr)
     for i, v in enumerate(self.tvars):
       if v.constraint is not None:
         common.install_proxy(v, "v%d" % i, self._on_constraint)
     self.kfl_kernel_index = {}
+    self.kfl_scale_index = {}
     for k, layer in enumerate(self.kfls):
       for i, v in enumerate(self.tvars):
         if v is layer.kernel:
           self.kfl_kernel_index["v%d" % i] = k
+        if v is layer.scale:
+          self.kfl_scale_index["v%d" % i] = k
     if fresh:
       self.never_projected = set(
           "v%d" % i for i, v in enumerate(self.tvars)
@@ -261,20 +262,20 @@ class ModelWorld(engine.World):
 
   def _ref_state(self):
     return {
-        "kfl": [None if self.kfl_state[k]["sign_seen"] is None else
-                self.kfl_state[k]["sign_seen"].tolist()
-                for k in range(len(self.kfls))],
+        "kfl": [kr.state() for kr in self.kfl_ref],
         "never_projected": sorted(self.never_projected),
     }
 
-  def _on_constraint(self, name, real):
+  def _on_constraint(self, name, real, w=None, out=None):
     self.calls.append(name)
     self.ctx.log("constraint", name)
     self.never_projected.discard(name)
     k = self.kfl_kernel_index.get(name)
     if k is not None:
-      self.kfl_state[k]["sign_seen"] = np.sign(
-          self.kfls[k].scale.numpy()).astype(np.int8)
+      self.kfl_ref[k].on_kernel_projection()
+    k = self.kfl_scale_index.get(name)
+    if k is not None and w is not None:
+      self.kfl_ref[k].on_scale_constraint(w.numpy(), np.asarray(out))
 
   def _log_state(self, ctx, tag):
     ctx.log(tag, *common.np_weights(self.model.weights))
@@ -427,6 +428,8 @@ class ModelWorld(engine.World):
   def apply(self, ev, ctx):
     self.ctx = ctx
     getattr(self, "_ev_" + ev["kind"])(ev, ctx)
+    for kr in self.kfl_ref:
+      kr.end_of_event()
     self._log_state(ctx, "state")
 
   def _hostile_loss(self, es):
@@ -558,9 +561,8 @@ class ModelWorld(engine.World):
     # Model.fit applies constraints inside its (possibly traced) train step in
     # variable creation order; kernel projections therefore saw the final
     # sign of scale.
-    for k, layer in enumerate(self.kfls):
-      self.kfl_state[k]["sign_seen"] = np.sign(layer.scale.numpy()).astype(
-          np.int8)
+    for kr in self.kfl_ref:
+      kr.on_kernel_projection()
     self.never_projected.clear()
     self.dirty_since_finalize = True
     ctx.fire("keras_fit")
@@ -574,14 +576,15 @@ class ModelWorld(engine.World):
       if fin is None:
         continue
       is_kfl = isinstance(layer, self.tfl.layers.KroneckerFactoredLattice)
-      sign = np.sign(layer.scale.numpy()).astype(np.int8) if is_kfl else None
+      pre = layer.scale.numpy() if is_kfl else None
       with ctx.sut("finalize_constraints"):
         fin()
       n += 1
       if is_kfl:
         for k, kl in enumerate(self.kfls):
           if kl is layer:
-            self.kfl_state[k]["sign_seen"] = sign
+            self.kfl_ref[k].on_kernel_projection(np.sign(pre))
+            self.kfl_ref[k].on_scale_constraint(pre, layer.scale.numpy())
     if n:
       ctx.fire("finalize")
     self.dirty_since_finalize = False
@@ -812,10 +815,9 @@ class ModelWorld(engine.World):
         self.model.load_weights(img["path"])
       else:
         self.model.set_weights(img["weights"])
-    for k in range(len(self.kfls)):
-      ss = img["ref"]["kfl"][k] if k < len(img["ref"]["kfl"]) else None
-      self.kfl_state[k]["sign_seen"] = (None if ss is None else np.array(
-          ss, dtype=np.int8))
+    for k, kr in enumerate(self.kfl_ref):
+      if k < len(img["ref"]["kfl"]):
+        kr.restore(img["ref"]["kfl"][k])
     self.never_projected = set(img["ref"].get("never_projected", []))
     self._pending_compare = (img, None)
     ctx.fire("reload_weights")
@@ -911,14 +913,8 @@ class ModelWorld(engine.World):
     return out
 
   def _stale_kfl(self):
-    for k, layer in enumerate(self.kfls):
-      ss = self.kfl_state[k]["sign_seen"]
-      if ss is None:
-        continue
-      now = np.sign(layer.scale.numpy()).astype(np.int8)
-      if ss.shape == now.shape and np.any(ss * now < 0):
-        return True
-    return False
+    """True if some KFL unit is stale only because of raw writes to scale."""
+    return any(bool(np.any(kr.stale_units())) for kr in self.kfl_ref)
 
   def _check_shape(self, ctx, ev, S):
     ps = rng_lib.Stream(ctx.run_seed, "probe", ev.get("id"))
@@ -1137,10 +1133,23 @@ class ModelWorld(engine.World):
             except (TypeError, ValueError):
               pass
             shape = tuple(int(d) for d in var.shape)
+            # Same program, same global seed: the original and the rebuilt
+            # initializer must draw the same values (a seeded one because of
+            # its seed, an unseeded one because it is the first random op).
+            gseed = rng_lib.derive(ctx.run_seed, "init-compare", label) % (
+                2**31 - 1)
+            def reseed():
+              # All three global RNGs the library draws from.
+              random.seed(gseed)
+              np.random.seed(gseed)
+              tf.random.set_seed(gseed)
+            reseed()
             a = np.asarray(obj(shape, dtype=var.dtype, **kw))
+            reseed()
             a2 = np.asarray(obj(shape, dtype=var.dtype, **kw))
             if a.shape != a2.shape or not np.array_equal(a, a2):
-              continue  # unseeded random initializer: nothing to compare
+              continue  # not reproducible even for the same object
+            reseed()
             b = np.asarray(obj2(shape, dtype=var.dtype, **kw))
           elif kind == "layer":
             # Shorthand arguments must be rebuilt into equivalent objects.
